@@ -92,24 +92,26 @@ Proof. vm_compute. reflexivity. Qed.
 (* On schemas of the class [clean] - no references, formats, nullable, patternProperties, dependencies, oneOf,
    uniqueItems, defaults under properties, empty tuples, nor a schema next to additional*: false; type, enum, numeric
    and string keywords, items (one or positional) with additionalItems, properties / required / additionalProperties /
-   min- and maxProperties, allOf, anyOf, not, at every depth - and JSON data of the class [jd] - no null, objects with
-   distinct members none of which is called "$schema", "id" or "headers" - the verdict of the pipeline is the draft-4
-   verdict: for every oracle, every option set with the two Swagger pre-checks off, every environment, and every
+   min- and maxProperties, allOf, anyOf, not, at every depth - and JSON data of the class [jd] - objects with distinct
+   members none of which is called "$schema", "id" or "headers"; null anywhere in the data when [allow_null] is set, in
+   which case the schema must be free of allOf / anyOf / not at every level (the null-under-composition finding lives
+   there) - the verdict of the pipeline is the draft-4 verdict: for every oracle, every option set with the two Swagger pre-checks off, every environment, and every
    numeric implementation whose order is total on the numbers involved.  The excluded shapes are where the recorded
    finding classes live, plus the keywords whose agreement is not proved yet (checked by the tie on every run). *)
 Theorem C01_agreement_on_the_clean_fragment_partial :
-  forall (fin : f64 -> Prop) OR N opt defs,
+  forall (fin : f64 -> Prop) (allow_null : bool) OR N opt defs,
   opt_array_must_have_items opt = false -> opt_obj_array_type_check opt = false ->
   (forall a b, fin a -> fin b -> n_lt N a b = negb (n_le N b a)) ->
-  forall n fuel s, clean fin OR n s -> (n < fuel)%nat -> forall p q d, jd fin d ->
+  forall n fuel s, clean fin allow_null OR n s -> (n < fuel)%nat -> forall p q d, jd fin allow_null d ->
   exists r, sv_validate OR N opt defs fuel s p q d = Ok r /\ d4 OR N defs fuel s d = Some (r_valid r).
 Proof. exact clean_fragment_agrees. Qed.
 Print Assumptions C01_agreement_on_the_clean_fragment_partial.
 
 (* the fragment is decidable: the procedure the harness evaluates on every case (its count is in the evidence) is sound *)
-Theorem C01_fragment_decision_is_sound : forall fin_b OR n s fuel d,
-  clean_b fin_b OR n s = true -> jd_b fin_b fuel d = true -> clean (finP fin_b) OR n s /\ jd (finP fin_b) d.
-Proof. intros fin_b OR n s fuel d H1 H2. split; [apply clean_b_sound; exact H1 | apply (jd_b_sound fin_b fuel d H2)]. Qed.
+Theorem C01_fragment_decision_is_sound : forall fin_b allow_null OR n s fuel d,
+  clean_b fin_b allow_null OR n s = true -> jd_b fin_b allow_null fuel d = true ->
+  clean (finP fin_b) allow_null OR n s /\ jd (finP fin_b) allow_null d.
+Proof. intros fin_b an OR n s fuel d H1 H2. split; [apply clean_b_sound; exact H1 | apply (jd_b_sound fin_b an fuel d H2)]. Qed.
 Print Assumptions C01_fragment_decision_is_sound.
 
 (* non-vacuity: numbers read as integers, {"type":"object","required":[50],"properties":{50:{"type":"number","maximum":7}},
@@ -125,7 +127,7 @@ Definition c01_schema : schema :=
 Definition c01_data : goval := VObj 1 [(50, VFlt false 5); (51, VArr 2 [VBool true])].
 
 Ltac clean_solve :=
-  repeat (unfold local_clean, array_clean, object_clean, comp_clean, bounds_fin, kids, c01_schema, plain_key in *; cbn in *;
+  repeat (unfold local_clean, nullsafe, array_clean, object_clean, comp_clean, bounds_fin, kids, c01_schema, plain_key in *; cbn in *;
           match goal with
           | |- _ /\ _ => split
           | |- forall _, _ => intro
@@ -135,6 +137,7 @@ Ltac clean_solve :=
           | H : Some _ = Some _ |- _ => inversion H; subst; clear H
           | H : _ \/ _ |- _ => destruct H
           | H : False |- _ => destruct H
+          | H : false = true |- _ => discriminate H
           | H : ?a = ?b |- False => discriminate H
           | H : (_, _) = (_, _) |- _ => inversion H; subst; clear H
           | |- Forall _ [] => constructor
@@ -147,7 +150,7 @@ Ltac clean_solve :=
           end).
 
 Example C01_fragment_is_inhabited :
-  clean (fun _ => True) no_oracles 4 c01_schema /\ jd (fun _ => True) c01_data /\
+  clean (fun _ => True) false no_oracles 4 c01_schema /\ jd (fun _ => True) false c01_data /\
   (forall a b, True -> True -> n_lt z_ops a b = negb (n_le z_ops b a)) /\
   exists r, sv_validate no_oracles z_ops opt0 [] 5 c01_schema [SRoot 0] [SRoot 0] c01_data = Ok r /\ r_valid r = true.
 Proof.
